@@ -687,6 +687,14 @@ func Eval(c Case) (problems []string, skipped string) {
 				want = expects[i]
 			}
 		}
+		// the file-level verdict ("Error" of the file report: what the text report prints and counts
+		// as a file with errors) follows the file's own diagnostics.
+		if len(want) == 0 && f.Error != "" {
+			bad("file %s destroys nothing that existed before it, yet its report carries the error %q", f.Name, f.Error)
+		}
+		if len(want) > 0 && f.Error == "" {
+			bad("file %s is destructive, yet its report carries no error", f.Name)
+		}
 		type diag struct {
 			code, text string
 			pos        int
@@ -766,7 +774,7 @@ func Run(r *report.Run) {
 	if r.Tier == "thorough" {
 		depth = 3
 	}
-	r.Rule = fmt.Sprintf("BFS to depth %d over schema evolutions of a two-table SQLite schema (add table, add nullable column, add index, drop column by ALTER, drop column by table rebuild, drop column (by ALTER / by rebuild) and add it back in the same file, drop table, drop table and create it again in the same file, change type by rebuild, add check by rebuild, drop VIRTUAL column, temporary table / temporary column inside one file, a rebuild directly followed by DROP TABLE, two rebuilds in one file, two destructive statements of which one is silenced by atlas:nolint, a table / column dropped, added back and dropped again, files of more than 10 statements ending in DROP TABLE / containing a column-dropping rebuild); every history becomes a migration directory in which the last file is written by hand and, where the evolution can be expressed as a desired schema, also by the real `atlas migrate diff` (earlier files hand-written); x --latest N for every N<=depth (and, for --latest 1, the hand-written file saved with CR LF line endings below 200 comment lines); the line number atlas prints for each diagnostic must be the line its byte position is on; the real `atlas migrate lint` runs against a real SQLite dev database; states de-duplicated by the canonical schema model for expansion; non-trivial = every directory; distinct = (history, producer, N)", depth)
+	r.Rule = fmt.Sprintf("BFS to depth %d over schema evolutions of a two-table SQLite schema (add table, add nullable column, add index, drop column by ALTER, drop column by table rebuild, drop column (by ALTER / by rebuild) and add it back in the same file, drop table, drop table and create it again in the same file, change type by rebuild, add check by rebuild, drop VIRTUAL column, temporary table / temporary column inside one file, a rebuild directly followed by DROP TABLE, two rebuilds in one file, two destructive statements of which one is silenced by atlas:nolint, a table / column dropped, added back and dropped again, files of more than 10 statements ending in DROP TABLE / containing a column-dropping rebuild); every history becomes a migration directory in which the last file is written by hand and, where the evolution can be expressed as a desired schema, also by the real `atlas migrate diff` (earlier files hand-written); x --latest N for every N<=depth (and, for --latest 1, the hand-written file saved with CR LF line endings below 200 comment lines); the line number atlas prints for each diagnostic must be the line its byte position is on; the file-level error of each file report follows the file's own diagnostics; the real `atlas migrate lint` runs against a real SQLite dev database; states de-duplicated by the canonical schema model for expansion; non-trivial = every directory; distinct = (history, producer, N)", depth)
 	r.Assumptions = []string{
 		"a file is destructive iff it removes a table or a non-virtual column that existed before the file (reference model of the evolution)",
 		"for a table rebuild the diagnostic position is the first statement of the CREATE/INSERT/DROP/RENAME group, as sqlitecheck documents",
